@@ -14,9 +14,22 @@ Keep(c) == CASE c.op = "get_subtree"  -> KeepSubtree(c.P, c.i)
              [] c.op = "cut_order"    -> KeepOrder(c.P, c.k)
              [] c.op = "cut_shorttip" -> KeepShortTip(c.P, c.el, c.thr)
 
+\* neurites / dendrites: o.parts = the returned trees, each projected like a single result
+PartsWhy(c, o) ==
+    LET want == IF c.dend = 1 THEN Dendrites(c.P, [k \in DOMAIN c.attr |-> c.attr[k][1]]) ELSE Neurites(c.P)
+        got(k) == SetOf(o.parts[k].map)
+        whys == [k \in DOMAIN o.parts |-> ResultWhy(c.P, c.attr, got(k), o.parts[k].map, o.parts[k].rpid, o.parts[k].rattr)] IN
+    IF Len(o.parts) # Cardinality(want) THEN "number-of-neurites"
+    ELSE IF \E k \in DOMAIN o.parts : got(k) \notin want THEN "kept-set"
+    ELSE IF \E k, m \in DOMAIN o.parts : k # m /\ got(k) = got(m) THEN "kept-set"
+    ELSE IF \E k \in DOMAIN o.parts : whys[k] # "" THEN whys[CHOOSE k \in DOMAIN o.parts : whys[k] # ""]
+    ELSE IF o.srcchanged # 0 THEN "input-modified"
+    ELSE IF o.idsok # 1 THEN "ids-not-positions"
+    ELSE ""
 \* "" = accepted; otherwise the first failing clause
 Why(c, o) ==
     IF o.err # "" THEN "raised-" \o o.err
+    ELSE IF c.op = "neurites" THEN PartsWhy(c, o)
     ELSE LET w == ResultWhy(c.P, c.attr, Keep(c), o.map, o.rpid, o.rattr) IN
          IF w # "" THEN w
          ELSE IF o.omap # <<-9>> /\ o.omap # o.map THEN "reported-mapping"   \* <<-9>>: the API reports no mapping
